@@ -305,3 +305,115 @@ func onlyFeedsPutUint(cv *ssa.Convert) bool {
 	}
 	return true
 }
+
+// StateStoreDiscipline (C01/C02.O8 state.writers): the watermark object is written only (a) by the fetch helper's
+// "none" marker, (b) by its own decoder, (c) in fresh objects built by import/export, (d) with the request's value of
+// the matching role, at a point every path to which has passed the watermark comparison and the bound.
+func (c *Ctx) StateStoreDiscipline(prop string, s *Slashing, kind string) {
+	rule := prop + ".O8 state.writers"
+	state := s.AttState
+	if kind == "prop" {
+		state = s.PropState
+	}
+	fh := map[*ssa.Function]bool{}
+	for _, f := range c.fetchHelpers(s, state) {
+		fh[f] = true
+	}
+	// approval functions: those containing an APPROVED origin of this kind's entries
+	approvalFns := map[*ssa.Function]bool{}
+	entries := []*ssa.Function{s.Propose}
+	if kind == "att" {
+		entries = []*ssa.Function{s.Attest, s.AttestB}
+	}
+	for _, e := range entries {
+		var origins []Origin
+		for _, ret := range an.Returns(e) {
+			if e == s.AttestB {
+				origins = append(origins, ElemOrigins(an.Result(ret, 0), ret)...)
+			} else {
+				origins = append(origins, ValueOrigins(an.Result(ret, 0), ret)...)
+			}
+		}
+		for _, o := range origins {
+			if o.Kind == "const" && o.Const == s.APPROVED {
+				approvalFns[o.Fn] = true
+			}
+		}
+	}
+	roleOf := map[string]dim{}
+	for _, d := range s.dims(kind) {
+		roleOf[d.StateFld] = d
+	}
+	n, bad := 0, 0
+	for _, fs := range c.stateFieldStores(s) {
+		if fs.Kind != kind {
+			continue
+		}
+		n++
+		fn := fs.Fn
+		// (b) decoder: a method on the state type with an error result
+		if fn.Signature.Recv() != nil && namedOf(fn.Signature.Recv().Type()) == state && errResultIndex(fn) >= 0 {
+			continue
+		}
+		// (a) fetch helper: checked by none-is-minus-one
+		if fh[fn] {
+			continue
+		}
+		fa := fs.Store.Addr.(*ssa.FieldAddr)
+		// (c) fresh object in import/export
+		if fn == s.ExportFn || fn == s.ImportFn {
+			if a, ok := fa.X.(*ssa.Alloc); ok && a.Heap {
+				continue
+			}
+		}
+		d, known := roleOf[fs.Field]
+		if !known {
+			bad++
+			c.R.Fail(rule, Fn(fn)+":"+fs.Field, c.Pos(fs.Store), "a watermark field without an inferred role is written", "only fields with a request->state role", nil)
+			continue
+		}
+		// (d)
+		v := fs.Store.Val
+		cv, isConv := v.(*ssa.Convert)
+		okVal := false
+		if isConv {
+			if k, f := s.reqField(cv.X); k == kind && f == d.ReqField {
+				okVal = true
+			}
+		}
+		if !okVal {
+			bad++
+			c.R.Fail(rule, Fn(fn)+":"+fs.Field, c.Pos(fs.Store), "the watermark field "+fs.Field+" is assigned "+an.Term(v)+" rather than the request's "+d.ReqField, fs.Field+" = int64(request "+d.ReqField+")", nil)
+			continue
+		}
+		target := ssa.Instruction(fs.Store)
+		approvedEdge := func(a *an.Atom) bool {
+			if a == nil || a.Op != "==" {
+				return false
+			}
+			for _, side := range [][2]ssa.Value{{a.LV, a.RV}, {a.RV, a.LV}} {
+				call, ok := side[0].(*ssa.Call)
+				if ok && an.IsConstInt(side[1], s.APPROVED) && approvalFns[call.Call.StaticCallee()] {
+					return true
+				}
+			}
+			return false
+		}
+		x, path := an.Cut(an.CutQuery{From: an.Entry(fn), Target: func(i ssa.Instruction) bool { return i == target },
+			AcceptEdge: func(b *ssa.BasicBlock, i int, a *an.Atom) bool {
+				return s.watermarkAtom(a, d.Kind, d.StateFld, d.ReqField, d.Strict) || approvedEdge(a)
+			}})
+		if x != nil {
+			bad++
+			c.R.Fail(rule, Fn(fn)+":"+fs.Field, c.Pos(fs.Store), "the watermark field "+fs.Field+" can be overwritten on a path that has not passed the comparison with its previous value (the watermark could move backwards)", "written only after the "+d.Name+" comparison (or after the check returned APPROVED)", an.PathString(c.Pos, path))
+		}
+	}
+	floor := 4
+	if kind == "att" {
+		floor = 8
+	}
+	c.R.Floor(rule, "stores to watermark fields ("+kind+")", n, floor)
+	if bad == 0 {
+		c.R.OK(rule, kind, "-", fmt.Sprintf("%d stores to watermark fields: decoder, 'none' marker, fresh import/export objects, or the request value after the comparison", n))
+	}
+}
